@@ -356,6 +356,16 @@ def main():
         pr = prove(pid, mod)
     log("prove: ok=%s obligations=%d discharged=%d failing=%s" % (pr["ok"], pr["obligations"], pr["discharged"],
                                                                   pr["failing"]))
+    if pr["ok"] and args.tier == "thorough" and not args.no_prove:
+        # independent re-check of the compiled property file and everything it depends on
+        rc, out = sh("timeout 1500 coqchk -silent -o -Q %s GV GV.Properties.%s 2>&1" % (THEORIES, pid), 1530, cwd=COQ)
+        m = re.search(r"\* Axioms:\s*(.*?)\n\s*\n", out, flags=re.S)
+        axioms = m.group(1).strip() if m else "unparsed"
+        pr["coqchk"] = "rc=%d axioms=%s" % (rc, axioms)
+        log("coqchk:", pr["coqchk"])
+        if rc != 0 or axioms != "<none>":
+            pr["ok"] = False
+            pr["failing"] = "coqchk: " + pr["coqchk"] + " " + out[-500:]
     if tie_broken:
         pr["ok"] = False
         pr["failing"] = "translator (tie to source broken): " + "; ".join(tie_broken)
@@ -477,7 +487,7 @@ def write_evidence(pid, tier, seed, mod, pr, cov, notes, nviol, wall, _n):
                            "correspondence" % (pid, pid),
             "trusted_base": TRUSTED + list(getattr(mod, "TRUSTED_EXTRA", [])),
             "print_assumptions": pr["assumptions"] or ["Closed under the global context (every theorem)"],
-            "proof_failure": pr["failing"], "notes": notes,
+            "proof_failure": pr["failing"], "notes": notes, "coqchk": pr.get("coqchk", "not run in the quick tier"),
         }),
         "assumptions": list(getattr(mod, "ASSUMPTIONS", [])),
         "wall_s": round(wall, 2), "violations": nviol,
